@@ -221,4 +221,60 @@ RejDom(g, t) ==
   CASE g = "mesh2.cross_section_xnode" -> t[2] >= 1
     [] g = "mesh2.cross_section_ynode" -> t[1] >= 1
     [] OTHER -> TRUE
+
+(* ---------------- receivers that are AGED before the call (state-changing sequences) ---------------- *)
+(* For these groups the harness also builds the first operand at an OLD size and brings it to the size *)
+(* of the tuple through a size-changing operation ("prep"); the predicate is evaluated on the NEW size. *)
+NamesOf(seq) == {seq[k].g : k \in 1..Len(seq)}
+VecRecv == NamesOf(VecGroups) \cup {"vec.sum", "vec.product", "vec.abs", "vec.norm_1", "vec.norm_2", "vec.norm_p", "vec.norm_inf", "vec.find", "vec.clone"}
+MatRecv == NamesOf(MatGroups) \cup {"mat.neg", "mat.mul_scalar", "mat.div_scalar", "mat.transpose", "mat.norm_1", "mat.norm_inf", "mat.norm_p",
+                                    "mat.norm_frob", "mat.norm_max", "mat.clone"}
+BandRecv == NamesOf(BandGroups) \cup {"band.neg", "band.mul_scalar", "band.div_scalar", "band.det", "band.clone"}
+TriRecv == {"tri.add", "tri.sub", "tri.matvec", "tri.solve", "tri.index_get", "tri.index_set", "tri.det", "tri.convert", "tri.transpose", "tri.clone"}
+SparseRecv == (NamesOf(SparseGroups) \ {"sparse.from_triplets"}) \cup {"sparse.col_index", "sparse.to_triplets", "sparse.to_dense", "sparse.transpose"}
+PolyRecv == {"poly.index_get", "poly.index_set", "poly.roots_f64", "poly.add", "poly.sub", "poly.mul", "poly.neg", "poly.mul_scalar", "poly.eval",
+             "poly.derivative", "poly.derivative_n", "poly.derivative_at", "poly.polydiv", "poly.degree", "poly.clone"}
+Mesh1Recv == {"mesh1.set_nodes_vars", "mesh1.get_nodes_vars", "mesh1.get_interpolated_vars", "mesh1.trapezium", "mesh1.nodes"}
+RecvTy(g) == CASE g \in VecRecv -> "vec" [] g \in MatRecv -> "mat" [] g \in BandRecv -> "band" [] g \in TriRecv -> "tri"
+               [] g \in SparseRecv -> "sparse" [] g \in PolyRecv -> "poly" [] g \in Mesh1Recv -> "mesh1" [] OTHER -> "none"
+Pr(prep, old) == [prep |-> prep, old |-> old]
+\* the preparations of a receiver whose NEW size is the head of tuple t: <<prep, old size(s)>>
+Preps(ty, t) ==
+  CASE ty = "vec" -> {Pr("vec.resize", <<t[1] + 2>>), Pr("vec.pop_push", <<t[1] + 1>>), Pr("vec.clear_insert", <<t[1] + 1>>)}
+                     \cup (IF t[1] >= 1 THEN {Pr("vec.resize", <<t[1] - 1>>)} ELSE {}) \cup (IF t[1] >= 2 THEN {Pr("vec.pop_push", <<t[1] - 2>>)} ELSE {})
+                     \cup (IF t[1] = 0 THEN {Pr("vec.clear", <<3>>)} ELSE {})
+    [] ty = "mat" -> {Pr("mat.resize", <<t[1] + 2, t[2] + 1>>), Pr("mat.delete_row", <<t[1] + 1, t[2]>>), Pr("mat.delete_row", <<t[1] + 2, t[2]>>),
+                      Pr("mat.transpose_in_place", <<t[2], t[1]>>), Pr("mat.clear_resize", <<t[1] + 1, t[2] + 1>>)}
+                     \cup (IF t[1] >= 1 THEN {Pr("mat.resize", <<t[1] - 1, t[2] + 2>>)} ELSE {}) \cup (IF t[2] >= 1 THEN {Pr("mat.resize", <<t[1] + 1, t[2] - 1>>)} ELSE {})
+                     \cup (IF t[1] = 0 /\ t[2] = 0 THEN {Pr("mat.clear", <<2, 3>>)} ELSE {})
+    [] ty = "band" -> {Pr("band.resize", <<t[1] + 1, t[2] + 1, t[3]>>), Pr("band.resize", <<t[1] + 2, t[2], t[3] + 1>>)}
+                      \cup (IF t[1] >= 1 THEN {Pr("band.resize", <<t[1] - 1, t[2], t[3] + 1>>)} ELSE {})
+    [] ty = "tri" -> IF t[1] = 0 THEN {} ELSE {Pr("tri.resize", <<t[1] + 2>>), Pr("tri.resize", <<t[1] - 1>>)}
+    [] ty = "sparse" -> {Pr("sparse.insert", <<t[1], t[2]>>), Pr("sparse.transpose", <<t[2], t[1]>>)}
+    [] ty = "poly" -> {Pr("poly.push", <<0>>), Pr("poly.pop", <<t[1] + 1>>)} \cup (IF t[1] >= 2 THEN {Pr("poly.push", <<t[1] - 2>>)} ELSE {})
+                      \cup (IF t[1] >= 1 THEN {Pr("poly.trim", <<t[1] + 2>>)} ELSE {})
+    [] ty = "mesh1" -> {Pr("mesh1.read", <<t[1] + 2>>), Pr("mesh1.read", <<t[1] + 1>>)} \cup (IF t[1] >= 1 THEN {Pr("mesh1.read", <<t[1] - 1>>)} ELSE {})
+    [] OTHER -> {}
+PrepKeys == {"vec.resize", "vec.pop_push", "vec.clear_insert", "vec.clear", "mat.clear", "mat.resize", "mat.delete_row", "mat.transpose_in_place", "mat.clear_resize",
+             "band.resize", "tri.resize", "sparse.insert", "sparse.transpose", "poly.push", "poly.pop", "poly.trim", "mesh1.read"}
+
+(* ---------------- operand VARIANTS of the by-reference / consuming pairs (accepted tuples only) ---------------- *)
+(* rhs: content of the second operand ("other" distinct, "same" equal to the first, "zero", "eye" identity/ones,   *)
+(* "alias" the SAME object on both sides of the by-reference forms); sc: code of the scalar (harness: 1: 0.0,      *)
+(* 2: -0.0, 3: 1.0, 4: -1.0, 5: 2.0, 6: 0.5; 0: the default); operands hold negative entries, zeros and -0.0.      *)
+SameTyBinary == {"vec.add", "vec.sub", "vec.add_assign", "vec.sub_assign", "vec.dot", "vec.dot_f64", "mat.add", "mat.sub", "mat.add_assign",
+                 "mat.sub_assign", "mat.matmul", "band.add", "band.sub", "band.add_assign", "band.sub_assign", "poly.add", "poly.sub", "poly.mul",
+                 "tri.add", "tri.sub"}
+MatVecLike == {"mat.matvec", "band.matvec", "tri.matvec"}
+SameShapeOps(g, t) == CASE Len(t) = 2 -> t[1] = t[2] [] Len(t) = 4 -> t[1] = t[3] /\ t[2] = t[4]
+                        [] Len(t) = 6 -> t[1] = t[4] /\ t[2] = t[5] /\ t[3] = t[6] [] OTHER -> FALSE
+Vr(rhs, sc) == [rhs |-> rhs, sc |-> sc]
+Variants(g, t) ==
+  CASE g \in SameTyBinary -> {Vr("other", 0), Vr("zero", 0), Vr("eye", 0)} \cup (IF SameShapeOps(g, t) THEN {Vr("same", 0), Vr("alias", 0)} ELSE {})
+    [] g \in MatVecLike -> {Vr("other", 0), Vr("zero", 0), Vr("eye", 0)}
+    [] g \in {"mat.mul_scalar", "band.mul_scalar", "poly.mul_scalar"} -> {Vr("other", c) : c \in 1..6}
+    [] g \in {"mat.div_scalar", "band.div_scalar"} -> {Vr("other", c) : c \in 3..6}
+    [] g \in {"mat.neg", "band.neg", "poly.neg"} -> {Vr("other", 0)}
+    [] OTHER -> {}
 =============================================================================
+
